@@ -45,7 +45,22 @@ func main() {
 	}
 }
 
-const repoDir = "/repo"
+// repoDir is the tree under verification. The registered commands always use /repo;
+// VERIF_REPO / VERIF_OUT exist so that the machinery itself can be tested against scratch
+// copies (mutation sweeps) without touching /repo or the committed evidence.
+var repoDir = func() string {
+	if d := os.Getenv("VERIF_REPO"); d != "" {
+		return d
+	}
+	return "/repo"
+}()
+
+func outDir() string {
+	if d := os.Getenv("VERIF_OUT"); d != "" {
+		return d
+	}
+	return verifDir()
+}
 const modPath = "github.com/aml-org/amf-custom-validator"
 
 func verifDir() string {
